@@ -92,6 +92,10 @@ var c12Logger = func() logger.Logger {
 
 const c12GroupID = "g"
 
+// c12FailedCases: cases that ended in a violation (a unit stops generating
+// more witnesses of the same thing after 200; each unit is its own process).
+var c12FailedCases atomic.Int64
+
 type c12Inst struct {
 	serverID string
 	g        *consumerGroup
@@ -545,7 +549,7 @@ func c12EnumPassRun(rep *kit.Report, nMembers, nStreams, maxLen int, configs [][
 		first := true
 		var dfs func(m c12Model)
 		dfs = func(m c12Model) {
-			if rep.NumViolations() >= 6 {
+			if rep.NumViolations() >= 6 || c12FailedCases.Load() >= 200 {
 				return
 			}
 			var en []c12Op
@@ -563,6 +567,9 @@ func c12EnumPassRun(rep *kit.Report, nMembers, nStreams, maxLen int, configs [][
 				first = false
 				prevLeaf = append(prevLeaf[:0], seq...)
 				w := c12RunSequence(rep, it.cfg, seq, common)
+				if w.failed {
+					c12FailedCases.Add(1)
+				}
 				checked.Add(int64(len(w.ops) - common))
 				total.Add(1)
 				steps.Add(int64(len(w.ops)))
@@ -640,7 +647,7 @@ func TestVerifC12Seeded(t *testing.T) {
 	}
 	var ops, restoreChecked, restoreDiffers, served, expired atomic.Int64
 	kit.Parallel(n, kit.Workers(), func(i int) {
-		if rep.NumViolations() >= 6 {
+		if rep.NumViolations() >= 6 || c12FailedCases.Load() >= 200 {
 			return
 		}
 		rng := kit.NewRNG(seeds[i])
@@ -719,6 +726,9 @@ func TestVerifC12Seeded(t *testing.T) {
 			}
 			m = m.next(op)
 			w.apply(op)
+		}
+		if w.failed {
+			c12FailedCases.Add(1)
 		}
 		ops.Add(int64(len(w.ops)))
 		restoreChecked.Add(int64(w.restoreChecked))
